@@ -1,5 +1,6 @@
 import XmpModel.FmtMod
 import XmpModel.FmtS3m
+import XmpModel.FmtXm
 /-! Native driver for C19.  Line protocol (stdin → stdout):
 
 * `gen <fmt> <id> <seed> <size>` : builds a random well-formed abstract song and writer
@@ -241,6 +242,106 @@ def gen (size : Nat) : G (Module × Opts × String) := do
 
 end GenS3m
 
+
+namespace GenXm
+open Xm
+
+def genCell (nz : Nat) : G Cell := do
+  if !(← chance nz) then return {}
+  let ins ← if (← chance 65) then range 1 128 else if (← chance 10) then range 129 255 else pure 0
+  let note ← match (← below 10) with
+    | 0 => pure (if ins = 0 then KEY_OFF else KEY_FADE)
+    | 1 | 2 | 3 => pure 0
+    | _ => range 13 108
+  let vol ← if (← chance 50) then range 1 65 else pure 0
+  return { note := note, ins := ins, vol := vol }
+
+def genSmp (maxLen : Nat) : G Smp := do
+  let name ← genName 22
+  if (← chance 12) then
+    return { name := name, len := 0, lps := 0, lpe := 0, flg := 0, pcm := [] }
+  let flg0 := (if (← chance 45) then F16BIT else 0) + (if (← chance 25) then FSTEREO else 0)
+  let len ← if (← chance 15) then range 1 5 else range 1 maxLen
+  let lt ← below 4
+  let (lps, lpe) ← if lt ≥ 2 then genLoop len else pure (0, 0)
+  let flg := flg0 + (if lt = 2 then FLOOP else if lt = 3 then FLOOP + FBIDIR else 0)
+  let pcm ← genRawPcm (len * frameBytes flg)
+  let pcm := if ((storePcm flg len pcm).drop 4).take 4 = str "OggS" then pcm.map (fun _ => 0) else pcm
+  return { name := name, len := len, lps := lps, lpe := lpe, flg := flg, pcm := pcm }
+
+def genIns (sid maxLen : Nat) : G (Ins × List Smp) := do
+  let name ← genName 22
+  if (← chance 30) then return ({ name := name, subs := [] }, [])
+  let nsm ← if (← chance 60) then pure 1 else if (← chance 90) then range 2 4 else range 5 16
+  let smps ← listOf nsm (genSmp maxLen)
+  let subs ← (List.range nsm).mapM fun j => do
+    let vol ← range 0 64
+    let pan ← below 256
+    let xpo ← range 0 255
+    let fin ← range 0 255
+    return ({ sid := sid + j, vol := vol, pan := pan, xpo := (xpo : Int) - 128, fin := (fin : Int) - 128 } : Sub)
+  let km ← listOf 96 (below nsm)
+  return ({ name := name, subs := subs, keymap := List.replicate 12 0 ++ km ++ List.replicate 13 0 }, smps)
+
+def gen (size : Nat) : G (Module × Opts × String) := do
+  let chn ← if (← chance 60) then range 1 8 else range 1 32
+  let npat ← if (← chance 5) then range 1 64 else range 1 (2 + size)
+  let npat := if size = 0 then min npat 3 else npat
+  let len ← range 1 (min 256 (4 + 10 * size))
+  let ords ← listOf len (do return u8 (← below npat))
+  let nz ← range 3 95
+  let emptyPat ← below (npat + 3)
+  let pats ← (List.range npat).mapM fun k => do
+    let rows ← match (← below 6) with
+      | 0 => range 1 4
+      | 1 => pure 64
+      | 2 => if chn ≤ 40 then pure 256 else pure 128
+      | _ => range 1 (if size = 0 then 32 else 128)
+    let rows := min rows (65535 / (6 * chn))
+    let cells ← listOf (rows * chn) (genCell (if k = emptyPat then 0 else nz))
+    return ({ rows := rows, cells := cells } : Pat)
+  let nins ← if (← chance 10) then range 0 1 else range 1 (3 + 4 * size)
+  let maxLen := if size = 0 then 40 else if size = 1 then 400 else 3000
+  let mut ins : Array Ins := #[]
+  let mut smps : Array Smp := #[]
+  for _ in [0:nins] do
+    let (x, ms) ← genIns smps.size maxLen
+    ins := ins.push x
+    smps := smps ++ ms.toArray
+  let name ← genName 20
+  let spd ← range 1 31
+  let bpm ← if (← chance 85) then range 32 255 else range 256 1000
+  let avoidEnd ← chance 94
+  let xseed ← next
+  let vseed ← next
+  let mseed ← next
+  let oseed ← next
+  let modeKind ← below 4
+  let emptyZero ← chance 50
+  let eis ← match (← below 3) with | 0 => pure 29 | 1 => pure 33 | _ => pure 263
+  -- the two known end-of-file defects of the loader are generated only in a few percent of the cases
+  let endBad (e : Nat) : Bool :=
+    !(decide (Xm.EndOk { name := [], chn := chn, orders := [], pats := [], ins := ins.toList, smps := smps.toList, spd := 0, bpm := 0 }
+                        { emptyInsSize := e }))
+  let eis := if avoidEnd && endBad eis then 33 else eis
+  if avoidEnd && endBad eis then
+    ins := ins.push { name := [], subs := [] }
+  let nins := ins.size
+  let trk ← match (← below 3) with
+    | 0 => pure (str "FastTracker v2.00   ") | 1 => pure (str "OpenMPT 1.31.07.00  ") | _ => genName 20
+  let trk := if trk.take 6 = str "MED2XM" ∨ trk.isEmpty then str "x" else trk
+  let m : Module := { name := name, chn := chn, orders := ords, pats := pats, ins := ins.toList,
+                      smps := smps.toList, spd := spd, bpm := bpm }
+  let o : Opts := { tracker := trk, restart := (← below 300), flags := (← below 2), emptyZero := emptyZero, emptyInsSize := eis,
+                    fx := fun i => let (a, b) := hashFx xseed i; (u8 (a.toNat % 40), b),
+                    volfx := fun i => if hashNat vseed i % 3 = 0 then 0 else u8 (hashNat vseed (i + 1)),
+                    mode := fun i => match modeKind with
+                      | 0 => 0 | 1 => 32 | 2 => hashNat mseed i % 33 | _ => 31,
+                    filler := fun i => u8 (hashNat oseed i) }
+  return (m, o, s!"chn={chn} pat={npat} len={len} ins={nins} smp={smps.size} mode={modeKind} emptyZero={emptyZero} emptyIns={eis}")
+
+end GenXm
+
 /-! ### commands -/
 def seedState (seed : Nat) : UInt64 :=
   let s := UInt64.ofNat seed * 0x9E3779B97F4A7C15 + 0xD1B54A32D192ED03
@@ -273,6 +374,17 @@ def cmdGen (fmt id : String) (seed size : Nat) : IO Unit := do
     IO.println s!"rt {rt}"
     IO.println s!"wf {decide (S3m.WellFormed m o)}"
     emit (dumpModule m)
+  | "xm" =>
+    let ((m, o, desc), _) := (GenXm.gen size).run (seedState seed)
+    let bytes := Xm.write m o
+    IO.println s!"opts {desc}"
+    IO.println s!"hex {toHex bytes}"
+    let rt := match Xm.read bytes with
+      | none => "none"
+      | some m' => if m' = Xm.loaded m then "ok" else "differ"
+    IO.println s!"rt {rt}"
+    IO.println s!"wf {decide (Xm.WellFormed m o)}"
+    emit (dumpModule (Xm.loaded m))
   | _ => IO.println "unsupported"
   IO.println "end"
 
@@ -282,6 +394,7 @@ def cmdRead (fmt id hex : String) : IO Unit := do
   let r := match fmt with
     | "mod" => Mod.read bytes
     | "s3m" => S3m.read bytes
+    | "xm" => Xm.read bytes
     | _ => none
   match r with
   | none => IO.println "silent"
